@@ -125,6 +125,8 @@ pub fn row_capacity() -> u64 {
             init_levels: 3,
             clock_all_methods: true,
             latch_partial: false,
+            by_ref: false,
+            builder_order: 0,
         };
         let pixels: Vec<(i32, i32, u32)> = (0..1000).map(|x| (x + 50, 1, (x * 7 + 1) as u32)).collect();
         let case = Case { property: "C20m".into(), seed: 0, config: cfg, program: vec![Op::DrawIter { pixels }], faults: vec![], mode: String::new() };
@@ -656,6 +658,8 @@ fn base_config(rng: &mut Rng, model: ModelId, transport: Transport, w: u16, h: u
         init_levels: rng.below(8) as u8,
         clock_all_methods: rng.coin(),
         latch_partial: rng.coin(),
+        by_ref: !transport.pin_level() && rng.chance(1, 3),
+                builder_order: if rng.chance(1, 3) { rng.below(720) as u16 | ((rng.below(2) as u16) << 15) } else { 0 },
     }
 }
 
@@ -1019,6 +1023,8 @@ pub fn run_index(prop: &str, idx: u64, vseed: u64, tier: Tier) -> RunResult {
                     init_levels: rng.below(8) as u8,
                     clock_all_methods: rng.coin(),
                     latch_partial: rng.coin(),
+                    by_ref: rng.chance(1, 3),
+                    builder_order: if rng.chance(1, 3) { rng.below(720) as u16 | ((rng.below(2) as u16) << 15) } else { 0 },
                 }
             } else {
                 let model = *rng.pick(&BUILTIN_MODELS);
@@ -1029,6 +1035,15 @@ pub fn run_index(prop: &str, idx: u64, vseed: u64, tier: Tier) -> RunResult {
                 let mut c = base_config(&mut rng, model, transport, w, h);
                 c.ox = ox;
                 c.oy = oy;
+                if rng.chance(1, 4) {
+                    // a panel geometry people really build, on any interface kind
+                    let (m, w, h, ox, oy) = *rng.pick(&REAL_PANELS);
+                    let t = gen_transport(&mut rng, lvl, m);
+                    let mut c2 = base_config(&mut rng, m, t, w, h);
+                    c2.ox = ox;
+                    c2.oy = oy;
+                    c = c2;
+                }
                 c
             };
             if !crate::dut::pairing_compiles(cfg.model, cfg.transport) {
@@ -1250,6 +1265,26 @@ fn run_c12(r: &mut RunResult, prop: &str, idx: u64, seed: u64, rng: &mut Rng, ti
             }
             let nf = rg.below(4);
             case.faults = gen_faults(&mut rg, case.config.transport, &dry.op_llops, nf);
+            // a client that does not retry at once may well issue the same call again a little
+            // later: repeat a faulted non-drawing call one or two calls further on
+            let mut inserts: Vec<(usize, Op)> = Vec::new();
+            for f in &case.faults {
+                if let Some(j) = dry.op_llops.iter().position(|r| f.llop >= r.0 && f.llop < r.1) {
+                    if !case.program[j].is_drawing() && !matches!(case.program[j], Op::Reinit { .. }) && rg.coin() {
+                        let at = (j + 1 + rg.below(2) as usize + 1).min(case.program.len());
+                        // the repeated call must leave the state the rest of the program was
+                        // written for: nothing that changes the geometry in between
+                        let clean = !case.program[j + 1..at].iter().any(|o| matches!(o, Op::SetOrientation { .. } | Op::Reinit { .. }));
+                        if clean {
+                            inserts.push((at, case.program[j].clone()));
+                        }
+                    }
+                }
+            }
+            inserts.sort_by(|a, b| b.0.cmp(&a.0));
+            for (at, op) in inserts {
+                case.program.insert(at, op);
+            }
             let rc = ReplayCase::Display(case);
             let key = class_key(&rc);
             let j = judge(&rc);
@@ -1292,7 +1327,8 @@ fn run_c12(r: &mut RunResult, prop: &str, idx: u64, seed: u64, rng: &mut Rng, ti
             program.extend(gen_draw_program(rng, &cfg, orient, &ProgOpts { other_pct: 0, min_ops: 1, max_ops: 1, weights: ALL_DRAW, oob: Oob::None, rect_any: false }));
         }
         target_idx = program.len();
-        match rng.below(12) {
+        match rng.below(14) {
+            12 | 13 => program.push(Op::TestImage), // a composite drawing call of the crate itself
             0..=5 => program.extend(gen_draw_program(rng, &cfg, orient, &ProgOpts { other_pct: 0, min_ops: 1, max_ops: 1, weights: [2, 2, 3, 2, 2, 1], oob: Oob::None, rect_any: false })),
             6 => {
                 orient = gen_orient(rng);
